@@ -95,3 +95,23 @@ pub fn diff_column(a: &[u8], b: &[u8]) -> usize {
     }
     usize::MAX
 }
+
+/// an AsyncWrite sink whose bytes survive the writer
+#[derive(Clone, Default)]
+pub struct AsyncSink(pub std::sync::Arc<std::sync::Mutex<Vec<u8>>>);
+impl tokio::io::AsyncWrite for AsyncSink {
+    fn poll_write(self: std::pin::Pin<&mut Self>, _: &mut std::task::Context<'_>, buf: &[u8]) -> std::task::Poll<io::Result<usize>> {
+        self.0.lock().unwrap().extend_from_slice(buf);
+        std::task::Poll::Ready(Ok(buf.len()))
+    }
+    fn poll_flush(self: std::pin::Pin<&mut Self>, _: &mut std::task::Context<'_>) -> std::task::Poll<io::Result<()>> {
+        std::task::Poll::Ready(Ok(()))
+    }
+    fn poll_shutdown(self: std::pin::Pin<&mut Self>, _: &mut std::task::Context<'_>) -> std::task::Poll<io::Result<()>> {
+        std::task::Poll::Ready(Ok(()))
+    }
+}
+
+pub fn block_on<F: std::future::Future>(f: F) -> F::Output {
+    tokio::runtime::Builder::new_current_thread().build().unwrap().block_on(f)
+}
